@@ -205,6 +205,116 @@ struct eng_knuth
   using s = std::knuth_b;
   static constexpr char const *name = "knuth_b";
 };
+// a user engine that can FAIL: it replays a tape of numbers and throws when asked beyond the part made available so far
+// (an entropy source that ran dry).  The wrapped standard distribution on the bare engine lets the caller catch that,
+// extend the tape and go on with the same sequence - a transparent wrapper does the same.
+struct tape_dry
+{
+};
+class tape_engine
+{
+public:
+  using result_type = std::uint32_t;
+  explicit tape_engine(result_type seed) : state_(seed == 0 ? 1U : seed) {}
+  static constexpr result_type min() { return 0; }
+  static constexpr result_type max() { return 0xFFFFFFFFU; }
+  result_type operator()()
+  {
+    if (available_ == 0)
+      throw tape_dry{};
+    --available_;
+    state_ ^= state_ << 13;
+    state_ ^= state_ >> 17;
+    state_ ^= state_ << 5;
+    return state_;
+  }
+  void extend(unsigned n) { available_ += n; }
+  friend bool operator==(tape_engine const &a, tape_engine const &b) { return a.state_ == b.state_ && a.available_ == b.available_; }
+
+private:
+  result_type state_;
+  unsigned available_ = 0;
+};
+inline tape_engine *&current_tape()
+{
+  static tape_engine *p = nullptr;
+  return p;
+}
+// (basic_pseudo owns its engine and offers no access to it: the tape is extended through a registry of the live engine)
+class tape_engine_registered : public tape_engine
+{
+public:
+  explicit tape_engine_registered(result_type seed) : tape_engine(seed) { current_tape() = this; }
+  tape_engine_registered(tape_engine_registered const &o) : tape_engine(o) { current_tape() = this; }
+};
+void failing_engine_entry()
+{
+  std::string const e = "generator/engine-that-throws";
+  if (!vf::entry_enabled(e))
+    return;
+  vf::set_entry(e);
+  for (std::uint64_t idx = 0; idx < vf::tier<std::uint64_t>(200, 20000); ++idx)
+  {
+    if (!vf::mine(idx))
+      continue;
+    vf::rng g(vf::seed_for(e, idx));
+    std::uint32_t const seed = static_cast<std::uint32_t>(g.next());
+    int const a = static_cast<int>(g.range(-50, 50)), b = static_cast<int>(g.range(a, 60));
+    if (!vf::begin_case("seed=%u interval=[%d,%d]: the tape is extended by 1..3 numbers whenever it ran dry, 40 draws", seed, a, b))
+      continue;
+    vf::sample_case(1);
+    vf::note_distinct(vf::hash_mix(vf::hash_str(e), vf::hash_mix(seed, static_cast<std::uint64_t>(a * 1000 + b))));
+    using G = fr::generator::basic_pseudo<tape_engine_registered>;
+    using P = frp::uniform_int<int>;
+    using D = fr::distribution::basic<P>;
+    G g1{typename G::seed(seed)};
+    tape_engine *const tape1 = current_tape();
+    fr::variate<G, D> var(fcppt::make_ref(g1), D(P::min(a), P::max(b)));
+    tape_engine g2(seed);
+    std::uniform_int_distribution<int> sd(a, b);
+    unsigned dry1 = 0, dry2 = 0;
+    bool ok = true;
+    for (unsigned k = 0; k < 40 && ok; ++k)
+    {
+      unsigned const more = 1 + static_cast<unsigned>(g.below(3));
+      int x = 0, y = 0;
+      for (;;)
+      {
+        try
+        {
+          x = var();
+          break;
+        }
+        catch (tape_dry const &)
+        {
+          ++dry1;
+          tape1->extend(more);
+        }
+      }
+      for (;;)
+      {
+        try
+        {
+          y = sd(g2);
+          break;
+        }
+        catch (tape_dry const &)
+        {
+          ++dry2;
+          g2.extend(more);
+        }
+      }
+      // (a draw that was interrupted starts over on both sides; the numbers consumed before the failure are gone on both)
+      ok = x == y;
+    }
+    VF_COUNT("generator/throwing-engine-cases");
+    if (dry1 > 0)
+      VF_COUNT("generator/throwing-engine/exceptions-propagated");
+    if (!ok || dry1 != dry2)
+      vf::violation("generator/engine-that-throws/sequence", "mismatch",
+                    "the variate and the standard distribution on the bare engine disagree (exceptions seen: " + std::to_string(dry1) + " / " + std::to_string(dry2) + ")");
+  }
+}
 template <class E>
 typename E::f::seed fseed(std::uint64_t v)
 {
@@ -1773,6 +1883,7 @@ void vf_slice_4()
   history_entry<eng_ranlux>();
   setter_entry<eng_mt64>();
   setter_entry<eng_knuth>();
+  failing_engine_entry();
 }
 #endif
 
